@@ -45,6 +45,9 @@ func (c *ClusterNode) internalRoute(remoteFn string, args Destinationer, reply a
 	if err := verifFault("route:"+destination, 0); err != nil {
 		return err
 	}
+	if err := verifFault("routefrom:"+c.MyHostname+">"+destination, 0); err != nil {
+		return err
+	}
 	// ---------------------------
 	startTime := time.Now()
 	defer func() {
